@@ -179,6 +179,14 @@ Theorem loc_roundtrip : forall lat lon alt size hp vp b A P,
 Proof. exact loc_roundtrip_thm. Qed.
 Print Assumptions loc_roundtrip.
 
+(* OPT: EDNS option framing and the option classes of dns/edns.py (ECS, EDE, NSID, COOKIE,
+   REPORTCHANNEL, the UTF-8 text options, generic), payloads in the normal form the classes hold *)
+Theorem opt_roundtrip : forall vs b A P,
+  hand_encode_rdata HOpt None vs = Ok b ->
+  hand_decode_rdata HOpt None (A ++ b ++ P) (length A) (length b) = Ok vs.
+Proof. exact opt_roundtrip_thm. Qed.
+Print Assumptions opt_roundtrip.
+
 (* ---------- non-vacuity: the hypotheses are satisfiable on realistic records ---------- *)
 Definition mx_schema := [FS (FU 2 65535); FS (FName true)].
 Definition mx_value := [VS (VI 10); VS (VN [[109; 97; 105; 108]; [101; 120]; []])].
@@ -290,3 +298,14 @@ Proof.
   - vm_compute. tauto.
   - eexists. vm_compute. reflexivity.
 Qed.
+
+Example opt_example :
+  let v := [VL [[VI 8; VB [0; 1; 20; 0; 192; 0; 32]]; [VI 15; VB [0; 18; 195; 169]]; [VI 10; VB [1; 2; 3; 4; 5; 6; 7; 8]];
+                [VI 18; VB [1; 97; 0]]; [VI 65001; VB []]]] in
+  exists b, hand_encode_rdata HOpt None v = Ok b /\ hand_decode_rdata HOpt None b 0 (length b) = Ok v.
+Proof. eexists. split; vm_compute; reflexivity. Qed.
+(* ECS address bits beyond the source prefix are cleared, a trailing NUL of EDE text is dropped *)
+Example opt_normalises :
+  hand_decode_rdata HOpt None [0; 8; 0; 7; 0; 1; 20; 0; 192; 0; 47;  0; 15; 0; 4; 0; 18; 120; 0] 0 19
+  = Ok [VL [[VI 8; VB [0; 1; 20; 0; 192; 0; 32]]; [VI 15; VB [0; 18; 120]]]].
+Proof. vm_compute. reflexivity. Qed.
